@@ -139,6 +139,7 @@ package runtime
 //@   note recursion budget: strictly smaller than the caller's, and never the zero that proto.UnmarshalOptions would re-default
 //@   ensures[budget-smaller] input.Depth > 0 ==> result.RecursionLimit < input.Depth
 //@   ensures[budget-not-redefaulted] input.Depth > 0 ==> result.RecursionLimit != 0
+//@   ensures[budget-exact] input.Depth > 1 ==> result.RecursionLimit == input.Depth - 1
 //@   ensures[discard] result.DiscardUnknown <==> input.Flags & protoiface.UnmarshalDiscardUnknown != 0
 //@   ensures[partial] result.AllowPartial
 //@   ensures[resolver] result.Resolver == input.Resolver
